@@ -314,9 +314,9 @@ func (g *genCtx) nextEvent(family string) sut.Event {
 		if rel <= 0 || g.chance(0.2) {
 			e.Tok = g.idOrJunk(iss["ts"], 0.2)
 		}
-		e.Code = g.rng.Intn(5) - 1 // -1 junk, 0 empty, 1..3 valid codes
+		e.Code = []int{-1, 0, 1, 3}[g.rng.Intn(4)] // junk, empty, the two valid codes
 		if g.chance(0.5) {
-			e.Code = 1 + g.rng.Intn(3)
+			e.Code = []int{1, 3}[g.rng.Intn(2)]
 		}
 		if e.Act != "TotpConfirm" && g.chance(0.25) {
 			g.rcArgs(&e, o)
